@@ -847,6 +847,7 @@ RULES = [
     ("C03.select", rule_select),
     ("C03.wake", rule_wake),
     # leftover hand-over and the helper's batch grab are wfcqueue splices (into a live queue for the hand-over)
+    ("C03.child", lambda c, r: __import__("sa.rules.c16", fromlist=["x"]).rule_child(c, r, "C03.child", callrcu_only=True)),   # callbacks pending at fork() and call_rcu() in the child: every inherited helper is replaced or emptied whichever helper served the caller
     ("C03.gpwait", rule_gpwait),
     ("C03.queue", lambda c, r: pat.shared(__import__("sa.rules.c10", fromlist=["x"]).rule_splice, "C03.queue")(c, r)),
     ("C03.queue", lambda c, r: pat.shared(__import__("sa.rules.c10", fromlist=["x"]).rule_append, "C03.queue")(c, r)),
